@@ -18,6 +18,11 @@ theorem exec_reach {P : Prog} {fuel : Nat} {ops : List Op} {m : M} (h : exec P f
     Reach P ops m ∧ m.stack = [] := by
   simpa using exec_reach_aux (pre := []) ops Reach.init rfl h
 
+/-- … and so is what the driver prints (`execMarks` = `exec` plus the log length after each operation). -/
+theorem driver_reach {P : Prog} {fuel : Nat} {ops : List Op} {m : M} {marks : List Nat}
+    (h : execMarks P fuel ops {} [] = some (m, marks)) : Reach P ops m ∧ m.stack = [] :=
+  exec_reach (execMarks_exec ops h)
+
 /-- **Exactly once, part 1.**  Every declared waiter's callback has been invoked at most once; it has been invoked exactly
 once iff it is no longer pending; declarations are distinguishable by their serial number. -/
 theorem waiter_once {P : Prog} {ops : List Op} {m : M} (h : Reach P ops m) (e : Entry) (he : e ∈ m.core.decls) :
@@ -240,5 +245,13 @@ example : demoProg.repaired = true ∧ demoOps.count .goUp ≤ 1 ∧ demoM.core.
 example : let c : Core := { waiters := [⟨0, [0], 0⟩] }
     (⟨0, [0], 0⟩ : Entry) ∈ c.waiters ∧ ready c ⟨0, [0], 0⟩ = true ∧
     ({ demoProg with body := fun _ => [.raise] } : Prog).body 0 = .raise :: [] := by decide
+
+/-- hypotheses of `rendezvous_never_raises`, `goUp_delivers`, `fired_snapshot_is_registry`: a register whose callback raises
+returns normally; the demo's `goUp` returns (with a deferral outstanding: stage 1); a step that invokes a callback -/
+example : (Act.register 1).isRendezvous = true ∧
+    (run demoProg 30 ⟨{ waiters := [⟨0, [1], 0⟩], decls := [⟨0, [1], 0⟩], nextId := 1 }, [.script [.register 1], .opEnd], false⟩).core.log
+      = [.fired 0 [0, 1], .failed 0] := by decide
+example : (run demoProg 30 (startOp .goUp {})).stack = [] ∧ (run demoProg 30 (startOp .goUp {})).core.stage = 1 := by decide
+example : Ev.fired 0 [0] ∈ (step demoProg ⟨{}, [.script [.declare [0] 1], .opEnd], false⟩).core.log := by decide
 
 end Pox.C08
